@@ -26,6 +26,122 @@ def _scaled(e):
     return isinstance(e, ast.BinOp) and isinstance(e.op, (ast.Mult, ast.Div))
 
 
+def decimal_lexical_rules(ctx, rule):
+    """DecimalConverter.to_xml: lexical clean-up touches only fractional zeros; the 18 digit budget counts digits only."""
+    repo = ctx.repo
+    tx = repo.cls(f'{DC}.DecimalConverter').methods.get('to_xml')
+    g = cfg_of(tx)
+    la = local_assignments(tx.node)
+    frac_names = set()
+    for n in walk_no_nested(tx.node):
+        if isinstance(n, ast.Assign) and isinstance(n.targets[0], ast.Tuple) and len(n.targets[0].elts) == 2 and \
+                isinstance(n.value, ast.Call) and call_name(n.value) == 'split' and n.value.args and \
+                isinstance(n.value.args[0], ast.Constant) and n.value.args[0].value == '.':
+            frac_names.add(unparse(n.targets[0].elts[1]))
+            int_name = unparse(n.targets[0].elts[0])
+    strips = [c for c in calls_in(tx.node) if call_name(c) in ('rstrip', 'strip', 'lstrip') and c.args and
+              isinstance(c.args[0], ast.Constant) and isinstance(c.args[0].value, str) and '0' in c.args[0].value]
+    def _has_point(e, node):
+        """The string e certainly contains the decimal point (so stripping zeros from its right end stops there)."""
+        if isinstance(e, ast.JoinedStr):
+            return any(isinstance(v, ast.Constant) and '.' in str(v.value) for v in e.values)
+        if isinstance(e, ast.BinOp) and isinstance(e.op, ast.Add):
+            return _has_point(e.left, node) or _has_point(e.right, node) or \
+                any(isinstance(x, ast.Constant) and x.value == '.' for x in (e.left, e.right))
+        if isinstance(e, ast.Call) and call_name(e) in ('rstrip', 'strip', 'lstrip') and isinstance(e.func, ast.Attribute) and \
+                e.args and isinstance(e.args[0], ast.Constant) and '.' not in str(e.args[0].value):
+            return _has_point(e.func.value, node)
+        if isinstance(e, ast.Name) and node is not None:
+            if (f"'.' in {e.id}", True) in g.facts_at(node):
+                return True
+            d = g.unique_def(node, e.id)
+            if d is not None:
+                return _has_point(g.def_value(d, e.id), d)
+        return False
+    bad = []
+    for c in strips:
+        if call_name(c) == 'lstrip':
+            continue
+        recv = c.func.value
+        chars = c.args[0].value
+        # zeros may be stripped from the fraction alone, or from a string that still contains the point - and then the
+        # character set must not contain the point itself (otherwise the stripping runs on into the integer part)
+        if unparse(recv) in frac_names or ('.' not in chars and _has_point(recv, g.holder(c))):
+            continue
+        bad.append(c)
+    ctx.ob(rule, 'zero stripping only on the fraction', not bad,
+           'trailing zeros are removed only from the fractional part' if not bad else
+           f'{unparse(bad[0])} strips the characters {bad[0].args[0].value!r} from the whole number: once the point is gone '
+           f'it also removes zeros of the integer part (Decimal("100.0") is written as "1")', fi=tx,
+           node=bad[0] if bad else None)
+    # trailing-character loops: every loop that shortens the number must re-check that a point is still present
+    ok = True
+    n_loops = 0
+    for w in [n for n in walk_no_nested(tx.node) if isinstance(n, ast.While) and not getattr(n, '_inline_wrapper', False)]:
+        cuts = [x for x in ast.walk(w) if isinstance(x, ast.Assign) and isinstance(x.value, ast.Subscript)
+                and isinstance(x.value.slice, ast.Slice) and unparse(x.value.slice) == ':-1']
+        if cuts:
+            n_loops += 1
+            tgt = unparse(cuts[0].targets[0])
+            ok = ok and f"'.' in {tgt}" in unparse(w.test) and isinstance(w.test, ast.BoolOp) and isinstance(w.test.op, ast.And)
+    ctx.ob(rule, 'truncation loop keeps the integer part', ok,
+           'a loop that removes trailing characters runs only while the number still contains a decimal point', fi=tx,
+           witness=n_loops)
+    # digit budget
+    budget = [x for x in ast.walk(tx.node) if isinstance(x, ast.Subscript) and isinstance(x.slice, ast.Slice)
+              and x.slice.upper is not None and isinstance(x.slice.upper, ast.BinOp) and isinstance(x.slice.upper.op, ast.Sub)
+              and isinstance(x.slice.upper.left, ast.Constant) and x.slice.upper.left.value == 18]
+    if not budget:
+        ctx.ob(rule, 'digit budget', False, 'the 18 digit limit of xsd:decimal output is not applied', fi=tx)
+    for b in budget:
+        hb = g.holder(b)
+        right = g.symbolic(hb, b.slice.upper.right) if hb is not None else b.slice.upper.right   # temporaries written out
+        txt = unparse(right)
+        counts_sign = isinstance(right, ast.Call) and call_name(right) == 'len' and right.args and \
+            isinstance(right.args[0], (ast.Name, ast.Subscript))
+        # what is counted has the sign and a leading zero stripped (written out: lstrip('-') .. lstrip('0'), or one lstrip
+        # with both characters)
+        strips = {ch for c_ in ast.walk(right) if isinstance(c_, ast.Call) and call_name(c_) in ('lstrip', 'strip', 'removeprefix')
+                  and c_.args and isinstance(c_.args[0], ast.Constant) and isinstance(c_.args[0].value, str)
+                  for ch in c_.args[0].value}
+        ok = not counts_sign and {'-', '0'} <= strips
+        ctx.ob(rule, f'digit budget {unparse(b)}', ok,
+               'the number of fractional digits kept is 18 minus the number of integer digits (sign and a lone leading zero '
+               'not counted)' if ok else
+               f'{unparse(b)}: the budget subtracts len() of the raw integer part, which counts the minus sign and a '
+               f'leading "0" as digits: -1.23456789012345678 and 0.000000000000000001 (both within 18 digits) lose digits',
+               fi=tx, node=b)
+
+    # time zone offsets: the sign comes from the sign of the WHOLE offset; hours and minutes are written from the absolute
+    # value without a sign flag (a sign derived from the hour component is lost for -00:30)
+    tzf = repo.funcs.get('sdc11073.xml_types.isoduration._tz_to_string')
+    if tzf is not None:
+        from engine.deps import Deps
+        dtz = Deps(tzf.node)
+        # the formatted offset - returned directly or through a result variable
+        rets = [e for r_ in walk_no_nested(tzf.node) if isinstance(r_, ast.Return) and r_.value is not None
+                for e in dtz.reach(r_.value) if isinstance(e, ast.JoinedStr) and len(e.values) >= 3]
+        ok = bool(rets)
+        why = ''
+        for r in rets:
+            flagged = [unparse(v) for v in r.values if isinstance(v, ast.FormattedValue) and v.format_spec is not None
+                       and '+' in unparse(v.format_spec)]
+            first = r.values[0]
+            sign_src = dtz.sources(first.value) if isinstance(first, ast.FormattedValue) else set()
+            sign_ok = isinstance(first, ast.FormattedValue) and first.format_spec is None and \
+                bool({'cmp:GtE', 'cmp:Lt', 'cmp:Gt', 'cmp:LtE'} & sign_src) and 'call:total_seconds' in sign_src
+            abs_ok = all('call:abs' in dtz.sources(v.value) for v in r.values[1:] if isinstance(v, ast.FormattedValue))
+            if flagged or not sign_ok or not abs_ok:
+                ok = False
+                why = f'sign flag on a component: {flagged}' if flagged else \
+                    ('the sign is not chosen by comparing the whole offset with 0' if not sign_ok else
+                     'hours / minutes are not computed from the absolute offset')
+        ctx.ob(rule, 'time zone sign', ok,
+               '_tz_to_string writes the sign of the whole offset followed by hours and minutes of its absolute value' if ok else
+               f'_tz_to_string: {why} - an offset between -00:59 and -00:01 is written with the wrong sign', fi=tzf)
+
+
+
 def run(ctx):  # noqa: C901, PLR0912
     repo = ctx.repo
     ctx.rule('C18.R1', 'no int() truncation of a scaled value in any converter to_xml')
@@ -75,7 +191,7 @@ def run(ctx):  # noqa: C901, PLR0912
 
     # ------------------------------------------------------------------ R3
     dc = repo.cls(f'{DC}.DecimalConverter')
-    tx = dc.methods.get('to_xml')
+    tx = repo.cls(f'{DC}.DecimalConverter').methods.get('to_xml')
     g = cfg_of(tx)
     dec_nodes = [n for n in g.real_nodes() if any(pol is True and txt == 'isinstance(py_value, Decimal)'
                                                   for txt, pol in g.facts_at(n))]
@@ -118,15 +234,15 @@ def run(ctx):  # noqa: C901, PLR0912
         for r in rets:
             facts = gd.facts_at(r)
             v = r.stmt.value
-            exp_branch = any(pol is True and "'E' in" in txt for txt, pol in facts)
+            exp_branch = any(pol is True and "'E' in" in txt for txt, pol in facts.both())
             if exp_branch:
                 fixed = (isinstance(v, ast.Call) and call_name(v) == 'format' and len(v.args) == 2 and
                          isinstance(v.args[1], ast.Constant) and v.args[1].value == 'f') or \
                         (isinstance(v, ast.JoinedStr) and ':f' in unparse(v))
                 ok = ok and fixed
             else:
-                no_exp = any(pol is False and "'E' in" in txt for txt, pol in facts) or \
-                    any(pol is False and "'e' in" in txt for txt, pol in facts)
+                no_exp = any(pol is False and "'E' in" in txt for txt, pol in facts.both()) or \
+                    any(pol is False and "'e' in" in txt for txt, pol in facts.both())
                 ok = ok and no_exp
     ctx.ob('C18.R3', 'exponent notation', ok,
            '_decimal_to_xml returns str(value) only when it contains no exponent and the fixed-point format otherwise',
@@ -143,110 +259,68 @@ def run(ctx):  # noqa: C901, PLR0912
     # ------------------------------------------------------------------ R5 (lexical post-processing of numbers)
     ctx.rule('C18.R5', 'lexical clean-up of a number touches only fractional zeros; the 18-digit budget counts digits, '
                        'not the sign or a leading zero')
-    g = cfg_of(tx)
-    la = local_assignments(tx.node)
-    frac_names = set()
-    for n in walk_no_nested(tx.node):
-        if isinstance(n, ast.Assign) and isinstance(n.targets[0], ast.Tuple) and len(n.targets[0].elts) == 2 and \
-                isinstance(n.value, ast.Call) and call_name(n.value) == 'split' and n.value.args and \
-                isinstance(n.value.args[0], ast.Constant) and n.value.args[0].value == '.':
-            frac_names.add(unparse(n.targets[0].elts[1]))
-            int_name = unparse(n.targets[0].elts[0])
-    strips = [c for c in calls_in(tx.node) if call_name(c) in ('rstrip', 'strip', 'lstrip') and c.args and
-              isinstance(c.args[0], ast.Constant) and isinstance(c.args[0].value, str) and '0' in c.args[0].value]
-    def _has_point(e, node):
-        """The string e certainly contains the decimal point (so stripping zeros from its right end stops there)."""
-        if isinstance(e, ast.JoinedStr):
-            return any(isinstance(v, ast.Constant) and '.' in str(v.value) for v in e.values)
-        if isinstance(e, ast.BinOp) and isinstance(e.op, ast.Add):
-            return _has_point(e.left, node) or _has_point(e.right, node) or \
-                any(isinstance(x, ast.Constant) and x.value == '.' for x in (e.left, e.right))
-        if isinstance(e, ast.Call) and call_name(e) in ('rstrip', 'strip', 'lstrip') and isinstance(e.func, ast.Attribute) and \
-                e.args and isinstance(e.args[0], ast.Constant) and '.' not in str(e.args[0].value):
-            return _has_point(e.func.value, node)
-        if isinstance(e, ast.Name) and node is not None:
-            if (f"'.' in {e.id}", True) in g.facts_at(node):
-                return True
-            d = g.unique_def(node, e.id)
-            if d is not None:
-                return _has_point(g.def_value(d, e.id), d)
-        return False
-    bad = []
-    for c in strips:
-        if call_name(c) == 'lstrip':
-            continue
-        recv = c.func.value
-        chars = c.args[0].value
-        # zeros may be stripped from the fraction alone, or from a string that still contains the point - and then the
-        # character set must not contain the point itself (otherwise the stripping runs on into the integer part)
-        if unparse(recv) in frac_names or ('.' not in chars and _has_point(recv, g.holder(c))):
-            continue
-        bad.append(c)
-    ctx.ob('C18.R5', 'zero stripping only on the fraction', not bad,
-           'trailing zeros are removed only from the fractional part' if not bad else
-           f'{unparse(bad[0])} strips the characters {bad[0].args[0].value!r} from the whole number: once the point is gone '
-           f'it also removes zeros of the integer part (Decimal("100.0") is written as "1")', fi=tx,
-           node=bad[0] if bad else None)
-    # trailing-character loops: every loop that shortens the number must re-check that a point is still present
-    ok = True
-    n_loops = 0
-    for w in [n for n in walk_no_nested(tx.node) if isinstance(n, ast.While) and not getattr(n, '_inline_wrapper', False)]:
-        cuts = [x for x in ast.walk(w) if isinstance(x, ast.Assign) and isinstance(x.value, ast.Subscript)
-                and isinstance(x.value.slice, ast.Slice) and unparse(x.value.slice) == ':-1']
-        if cuts:
-            n_loops += 1
-            tgt = unparse(cuts[0].targets[0])
-            ok = ok and f"'.' in {tgt}" in unparse(w.test) and isinstance(w.test, ast.BoolOp) and isinstance(w.test.op, ast.And)
-    ctx.ob('C18.R5', 'truncation loop keeps the integer part', ok,
-           'a loop that removes trailing characters runs only while the number still contains a decimal point', fi=tx,
-           witness=n_loops)
-    # digit budget
-    budget = [x for x in ast.walk(tx.node) if isinstance(x, ast.Subscript) and isinstance(x.slice, ast.Slice)
-              and x.slice.upper is not None and isinstance(x.slice.upper, ast.BinOp) and isinstance(x.slice.upper.op, ast.Sub)
-              and isinstance(x.slice.upper.left, ast.Constant) and x.slice.upper.left.value == 18]
-    if not budget:
-        ctx.ob('C18.R5', 'digit budget', False, 'the 18 digit limit of xsd:decimal output is not applied', fi=tx)
-    for b in budget:
-        hb = g.holder(b)
-        right = g.symbolic(hb, b.slice.upper.right) if hb is not None else b.slice.upper.right   # temporaries written out
-        txt = unparse(right)
-        counts_sign = isinstance(right, ast.Call) and call_name(right) == 'len' and right.args and \
-            isinstance(right.args[0], (ast.Name, ast.Subscript))
-        ok = not counts_sign
-        ctx.ob('C18.R5', f'digit budget {unparse(b)}', ok,
-               'the number of fractional digits kept is 18 minus the number of integer digits (sign and a lone leading zero '
-               'not counted)' if ok else
-               f'{unparse(b)}: the budget subtracts len() of the raw integer part, which counts the minus sign and a '
-               f'leading "0" as digits: -1.23456789012345678 and 0.000000000000000001 (both within 18 digits) lose digits',
-               fi=tx, node=b)
+    decimal_lexical_rules(ctx, 'C18.R5')
+    from . import common
+    common.implied_value_only_for_none(ctx, 'C18.R3')
+    # lexical space of xs:dateTime: the end-of-day form 24:00:00 admits only zeros as fraction (parse_date_time drops the
+    # fraction of that form, so anything else would be coerced instead of rejected) - decided on the parsed pattern
+    import re as _re
+    from engine.util import const_str
+    iso = repo.module('sdc11073.xml_types.isoduration')
+    pat = const_str(iso.tree, ast.Name(id='__DATETIME_PATTERN__', ctx=ast.Load()))
+    if pat is None:
+        raise AnalysisError('C18.R4: the dateTime pattern of isoduration.py cannot be folded to a constant string')
+    tree_ = _re._parser.parse(pat)  # noqa: SLF001
 
-    # time zone offsets: the sign comes from the sign of the WHOLE offset; hours and minutes are written from the absolute
-    # value without a sign flag (a sign derived from the hour component is lost for -00:30)
-    tzf = repo.funcs.get('sdc11073.xml_types.isoduration._tz_to_string')
-    if tzf is not None:
-        from engine.deps import Deps
-        dtz = Deps(tzf.node)
-        rets = [n.value for n in walk_no_nested(tzf.node) if isinstance(n, ast.Return) and isinstance(n.value, ast.JoinedStr)
-                and len(n.value.values) >= 3]
-        ok = bool(rets)
-        why = ''
-        for r in rets:
-            flagged = [unparse(v) for v in r.values if isinstance(v, ast.FormattedValue) and v.format_spec is not None
-                       and '+' in unparse(v.format_spec)]
-            first = r.values[0]
-            sign_src = dtz.sources(first.value) if isinstance(first, ast.FormattedValue) else set()
-            sign_ok = isinstance(first, ast.FormattedValue) and first.format_spec is None and \
-                bool({'cmp:GtE', 'cmp:Lt', 'cmp:Gt', 'cmp:LtE'} & sign_src) and 'call:total_seconds' in sign_src
-            abs_ok = all('call:abs' in dtz.sources(v.value) for v in r.values[1:] if isinstance(v, ast.FormattedValue))
-            if flagged or not sign_ok or not abs_ok:
-                ok = False
-                why = f'sign flag on a component: {flagged}' if flagged else \
-                    ('the sign is not chosen by comparing the whole offset with 0' if not sign_ok else
-                     'hours / minutes are not computed from the absolute offset')
-        ctx.ob('C18.R5', 'time zone sign', ok,
-               '_tz_to_string writes the sign of the whole offset followed by hours and minutes of its absolute value' if ok else
-               f'_tz_to_string: {why} - an offset between -00:59 and -00:01 is written with the wrong sign', fi=tzf)
+    def _group(items, name_idx):
+        for op, av in items:
+            if str(op) == 'SUBPATTERN':
+                if av[0] == name_idx:
+                    return av[3]
+                r = _group(av[3], name_idx)
+                if r is not None:
+                    return r
+            elif str(op) in ('MAX_REPEAT', 'MIN_REPEAT'):
+                r = _group(av[2], name_idx)
+                if r is not None:
+                    return r
+            elif str(op) == 'BRANCH':
+                for alt in av[1]:
+                    r = _group(alt, name_idx)
+                    if r is not None:
+                        return r
+        return None
 
+    def _chars_after_dot(items, seen_dot=False, out=None):
+        out = [] if out is None else out
+        for op, av in items:
+            o = str(op)
+            if o == 'LITERAL':
+                if seen_dot:
+                    out.append(chr(av))
+                elif chr(av) == '.':
+                    seen_dot = True
+            elif o in ('IN', 'CATEGORY', 'ANY', 'NOT_LITERAL', 'RANGE'):
+                if seen_dot:
+                    out.append(f'<{o}>')
+            elif o == 'SUBPATTERN':
+                seen_dot = _chars_after_dot(av[3], seen_dot, out)[0]
+            elif o in ('MAX_REPEAT', 'MIN_REPEAT'):
+                seen_dot = _chars_after_dot(av[2], seen_dot, out)[0]
+            elif o == 'BRANCH':
+                for alt in av[1]:
+                    _chars_after_dot(alt, seen_dot, out)
+        return seen_dot, out
+    eod_idx = tree_.state.groupdict.get('eod')
+    eod = _group(tree_, eod_idx) if eod_idx is not None else None
+    if eod is None:
+        raise AnalysisError('C18.R4: end-of-day group not found in the dateTime pattern')
+    _sd, frac = _chars_after_dot(eod)
+    ctx.ob('C18.R4', 'end of day admits only a zero fraction', all(c == '0' for c in frac),
+           '24:00:00 may only be followed by .000...' if all(c == '0' for c in frac) else
+           f'the end-of-day alternative of the dateTime pattern accepts the fraction characters {sorted(set(frac))}: '
+           f'2001-10-26T24:00:00.5 is accepted and silently read as 24:00:00 (coerced, not rejected)', where=iso.name,
+           witness=pat[:200])
     # ------------------------------------------------------------------ R4
     bc = repo.cls(f'{DC}.BooleanConverter').methods.get('to_py')
     raises = any(isinstance(n, ast.Raise) for n in walk_no_nested(bc.node))
